@@ -79,3 +79,37 @@ Example visible_example :
   = Some [("x.com/Book", "shelves/{shelf}/books/{book}"); ("x.com/Vault", "vaults/{vault}")]
   /\ helper_sig ("x.com/KeyRing", "keyRings/{key_ring=**}") = ("key_ring_path", "keyRings/{key_ring}").
 Proof. vm_compute. split; reflexivity. Qed.
+
+(* keyed by the whole address it is the search of the model ... *)
+Lemma dfs_by_id next n : forall todo seen, dfs_by next (fun a => a) n todo seen = dfs next n todo seen.
+Proof.
+  induction n as [|n IH]; intros todo; induction todo as [|a rest IHt]; intros seen; cbn [dfs_by dfs]; try reflexivity.
+  - rewrite map_id. unfold mem. destruct (mem_str a seen); [apply IHt | reflexivity].
+  - rewrite map_id. unfold mem. destruct (mem_str a seen); [apply IHt | apply IH].
+Qed.
+
+Theorem visible_by_address sch tbl roots : visible_by (fun a => a) sch tbl roots = visible sch tbl roots.
+Proof. unfold visible_by, visible, vclosure. rewrite dfs_by_id. reflexivity. Qed.
+
+(* ... keyed by the short name it loses a resource that the specification says is visible *)
+Theorem visible_by_short_name_refuted :
+  exists sch tbl roots h,
+    (exists t a m, In t roots /\ reach (vnext sch) t a /\ vfind sch a = Some m /\ In h (helpers_of tbl m)) /\
+    (forall hs, visible_by short_name sch tbl roots = Some hs -> ~ In h hs).
+Proof.
+  exists [ mkV "Catalog" ["Tome"; "Rack"] [] None;
+           mkV "Tome" ["Tome.Details"] [] None;
+           mkV "Tome.Details" [] [] None;
+           mkV "Rack" ["Rack.Details"] [] None;
+           mkV "Rack.Details" ["Curator"] [] None;
+           mkV "Curator" [] [] (Some ("x.com/Curator", "curators/{curator}")) ],
+         [], ["Catalog"], ("x.com/Curator", "curators/{curator}").
+  split.
+  - exists "Catalog", "Curator", (mkV "Curator" [] [] (Some ("x.com/Curator", "curators/{curator}"))).
+    split; [simpl; tauto|]. split.
+    + apply (reach_step _ "Catalog" "Rack.Details" "Curator");
+        [apply (reach_step _ "Catalog" "Rack" "Rack.Details");
+           [apply (reach_step _ "Catalog" "Catalog" "Rack"); [apply reach_refl|]|]|]; vm_compute; tauto.
+    + split; [reflexivity | cbn; tauto].
+  - intros hs H. vm_compute in H. injection H as <-. cbn. tauto.
+Qed.
